@@ -103,6 +103,15 @@ def run(ctx, res):
         if len(M.sig(a)) != len(M.sig(b)):
             res.fail(key, 'a later comment turned into code or code into a comment (significant token count %d -> %d)' % (len(M.sig(a)), len(M.sig(b))), inp)
             continue
+        # no header, no title: what stats reports must come from THIS program's first tokens (nothing remembered from another cart)
+        if not (a and a[0][0] == 'comment'):
+            for what, txt in (('input', src), ('luamin output', out)):
+                ti0, bi0 = title_byline([txt])
+                if txt is out and so != 'none' and b and b[0][0] == 'comment':
+                    continue
+                if ti0 is not None:
+                    res.fail(key, 'stats reports title %r for a %s that does not start with a comment' % (ti0, what), inp)
+                    break
         # title / byline as `stats` derives them, when the header is in the canonical position PICO-8 uses
         if len(lead) >= 1 and src.startswith(lead[0]):
             ti, bi = title_byline([src])
